@@ -76,6 +76,24 @@ static uint64_t fnv(const uint8_t* p, size_t n) {
 
 static void ev_objchg(void);
 
+// hash of a whole object (up to ~1 MB, twice per pure call): 8 bytes at a time and not instrumented by ASan,
+// the object is the driver's own allocation
+#if defined(__GNUC__)
+__attribute__((no_sanitize("address", "undefined")))
+#endif
+static uint64_t obj_hash(const uint8_t* p, size_t n) {
+  uint64_t h = 1469598103934665603ULL;
+  size_t i = 0;
+  for (; i + 8 <= n; i += 8) {
+    uint64_t w;
+    memcpy(&w, p + i, 8);
+    h = (h ^ w) * 1099511628211ULL;
+    h ^= h >> 29;
+  }
+  for (; i < n; i++) h = (h ^ p[i]) * 1099511628211ULL;
+  return h;
+}
+
 static void json_str(FILE* f, const char* s) {
   fputc('"', f);
   if (s) {
@@ -105,7 +123,7 @@ static const char* cls_of(const char* repr) {
 }
 
 static void ev_objchg(void) {
-  if (g_chk_obj) fprintf(g_ev, ",\"objchg\":%s", fnv(g_chk_obj, g_chk_sz) != g_chk_h0 ? "true" : "false");
+  if (g_chk_obj) fprintf(g_ev, ",\"objchg\":%s", obj_hash(g_chk_obj, g_chk_sz) != g_chk_h0 ? "true" : "false");
 }
 
 static void on_timeout(int sig) {
@@ -662,7 +680,7 @@ static void do_pure(run_t* r, const step_t* s) {
   bool iface = r->j->via_iface && o->kind != K_TWOCORO;
   void* up = iface ? o->upcast(r->obj) : NULL;
   (void)up;
-  uint64_t h0 = fnv(r->obj, r->sz);
+  uint64_t h0 = obj_hash(r->obj, r->sz);
   uint64_t ret = 0, ret2 = 0;
   if (!strcmp(s->m, "workbuf_len")) {
     wuffs_base__range_ii_u64 w = {0};
@@ -687,7 +705,7 @@ static void do_pure(run_t* r, const step_t* s) {
   } else if (!strcmp(s->m, "get_sum")) {
     ret = o->get_sum(r->obj);
   }
-  bool objchg = fnv(r->obj, r->sz) != h0;
+  bool objchg = obj_hash(r->obj, r->sz) != h0;
   ev_head(s, iface);
   ev_status(wuffs_base__make_status(NULL), false);
   fprintf(g_ev, ",\"objchg\":%s,\"ret\":\"%llu,%llu\"}\n", objchg ? "true" : "false", (unsigned long long)ret, (unsigned long long)ret2);
@@ -696,7 +714,7 @@ static void do_pure(run_t* r, const step_t* s) {
 static void do_nullrecv(run_t* r, const step_t* s) {
   g_chk_obj = r->obj;
   g_chk_sz = r->sz;
-  g_chk_h0 = fnv(r->obj, r->sz);
+  g_chk_h0 = obj_hash(r->obj, r->sz);
   if (!strcmp(s->m, "initialize")) {
     wuffs_base__status st = r->o->init(NULL, r->sz, WUFFS_VERSION, 0);
     ev_head(s, false);
@@ -736,7 +754,17 @@ static void run_job(const job_t* j) {
   r.valid = valid;
   r.corrupt = corrupt;
   r.sz = o->size();
-  r.obj = (uint8_t*)malloc(r.sz);
+  // one exact-size allocation per object type and process (a fresh 1 MB malloc per job is what costs under ASan)
+  static struct { const obj_t* o; uint8_t* mem; } s_objs[16];
+  for (int i = 0; i < 16 && !r.obj; i++) {
+    if (s_objs[i].o == o) {
+      r.obj = s_objs[i].mem;
+    } else if (!s_objs[i].o) {
+      s_objs[i].o = o;
+      s_objs[i].mem = (uint8_t*)malloc(r.sz);
+      r.obj = s_objs[i].mem;
+    }
+  }
   memset(r.obj, j->mem_garbage ? 0xA5 : 0, r.sz);
   // the caller's buffers live as long as the process; every job starts with them filled with 0xA5
   static uint8_t* s_dbuf = NULL;
@@ -786,7 +814,6 @@ static void run_job(const job_t* j) {
   }
   arm_budget(0);
   fprintf(g_ev, "{\"j\":%ld,\"k\":\"end\",\"stop\":\"done\",\"calls\":%d}\n", j->id, j->nsteps);
-  free(r.obj);
 }
 
 int main(int argc, char** argv) {
